@@ -13,6 +13,7 @@ from __future__ import annotations
 import itertools
 
 import numpy as np
+import scipy.sparse as sps
 
 from .c07 import shape_class
 
@@ -91,6 +92,27 @@ def run_case(case, r):
     vol = float(np.prod(vs))
     if nf > 0:
         r.nontriv((shape, case["vs"]))
+
+    # ---- the operators are built on ONE grid object, repeatedly: assembling them leaves the grid
+    # (face areas, connectivity tables, ...) unchanged and the second assembly equals the first
+    from mc.canon import digest as _dg
+
+    g_before = _dg(vars(g))
+    first_ops = {}
+    for rep in range(2):
+        ops_now = {"div": darsia.FVDivergence(g).mat, "mass-cells": darsia.FVMass(g, "cells").mat, "mass-faces": darsia.FVMass(g, "faces").mat}
+        if dim >= 2 and nf:
+            ops_now["tangential"] = sps.vstack(darsia.FVTangentialFaceReconstruction(g).mat)
+            darsia.FVFullFaceReconstruction(g)
+        for name, m in ops_now.items():
+            if m is None:
+                continue
+            d_ = np.asarray(m.todense())
+            if rep == 0:
+                first_ops[name] = d_
+            else:
+                r.check(np.array_equal(d_, first_ops[name]), cell("reassembly"), "an operator assembled a second time on the same grid object equals the first assembly", operator=name)
+        r.check(_dg(vars(g)) == g_before, cell("grid-unchanged"), "assembling the finite-volume operators leaves the grid object unchanged", after_assemblies=rep + 1, face_vol=g.face_vol)
 
     # ---- face areas
     r.check([float(x) for x in g.face_vol] == area, cell("face-area"), "face area = product of the other voxel sizes", got=g.face_vol, want=area)
@@ -285,6 +307,22 @@ def run_case(case, r):
         for name, okv in oks.items():
             if okv:
                 r.ok()
+
+    # ---- harmonic mean on the numeric classes a mobility can take: exactly zero, very small, very large
+    if nf >= 1:
+        for lo_, hi_, tagv in ((0.0, 0.0, "both-zero"), (0.0, 3.0, "one-zero"), (2.0**-600, 2.0**-598, "tiny"), (2.0**600, 2.0**598, "huge")):
+            fld = np.zeros(shape)
+            for idx in np.ndindex(*shape):
+                fld[idx] = lo_ if sum(idx) % 2 == 0 else hi_
+            with np.errstate(all="ignore"):
+                got = np.asarray(darsia.cell_to_face_average(g, fld.copy(), "harmonic"), dtype=float)
+            want = np.zeros(nf)
+            for f in range(nf):
+                v0, v1 = fld[pos[int(conn[f, 0])]], fld[pos[int(conn[f, 1])]]
+                # 2 / (1/v0 + 1/v1), evaluated without overflow: min * (2 / (1 + min/max)); 0 if a value is 0
+                mn, mx = min(v0, v1), max(v0, v1)
+                want[f] = 0.0 if mn == 0.0 else mn * (2.0 / (1.0 + mn / mx))
+            r.check(got.shape == want.shape and bool(np.all(np.isfinite(got))) and np.allclose(got, want, rtol=1e-12, atol=0.0), cell("average-harmonic-range"), "the harmonic mean of two neighbours is finite and correct for zero, very small and very large values", values=tagv, got=got[:4], want=want[:4])
 
     # ---- tangential and full reconstruction of constant fields
     if dim >= 2:
